@@ -204,6 +204,30 @@ int main(int argc, char **argv) {
     }
     if (violations) { printf("model %d (seed %lu):\n%s\n", it, seed, nl.c_str()); return 10; }
   }
+  // malformed models: an index or count outside the range the header declares must be rejected with a read error
+  {
+    const S head = "g3 1 1 0\n 3 1 1 0 0 2\n 1 1\n 0 0\n 3 3 3\n 0 2 0 1\n 0 0 0 0 0\n 0 0\n 0 0\n 1 0 0 0 0\n";
+    const S tail = "b\n3\n3\n3\n";
+    static const char *bad_models[][2] = {
+      {"variable suffix index 3 of 3", "S0 1 s\n3 1\n"}, {"constraint suffix index 3 of 3", "S1 1 s\n3 1\n"},
+      {"objective suffix index 1 of 1", "S2 1 s\n1 1\n"}, {"problem suffix index 1 of 1", "S3 1 s\n1 1\n"},
+      {"objective suffix announcing 2 values for 1 objective", "S2 2 s\n0 1\n0 2\n"}, {"real objective suffix index 1 of 1", "S6 1 s\n1 1.5\n"},
+      {"variable suffix announcing 4 values for 3 variables", "S0 4 s\n0 1\n1 1\n2 1\n2 1\n"},
+      {"algebraic constraint index 1 of 1", "C1\nn1\n"}, {"logical constraint index 2 of 2", "L2\nn1\n"}, {"objective index 1 of 1", "O1 0\nn1\n"},
+      {"defined variable index 4 (3 variables + 1 expression)", "V4 0 0\nn1\n"}, {"defined variable index 2 (a variable)", "V2 0 0\nn1\n"},
+      {"function index 2 of 2", "F2 0 -1 f\n"}, {"function type 2", "F0 2 -1 f\n"},
+      {"variable reference 4", "C0\nv4\n"}, {"function call index 2", "C0\nf2 0\n"}, {"sum with 2 arguments", "C0\no54\n2\nn1\nn2\n"},
+      {"suffix kind 8", "S8 1 s\n0 1\n"}, {"linear part of constraint 1 of 1", "J1 1\n0 1\n"}, {"linear term variable 3 of 3", "J0 1\n3 1\n"},
+      {"linear part with 4 terms for 3 variables", "J0 4\n0 1\n1 1\n2 1\n0 1\n"}, {"gradient of objective 1 of 1", "G1 1\n0 1\n"},
+    };
+    for (auto &bm : bad_models) {
+      S nl = head + bm[1] + tail; Checker h; bool rejected = false;
+      try { mp::ReadNLString(mp::NLStringRef(nl.c_str(), nl.size()), h, "(malformed)"); }
+      catch (const mp::ReadError &) { rejected = true; }
+      catch (const std::exception &e) { rejected = true; }
+      if (!rejected) { bad(S("a model with ") + bm[0] + " is accepted"); printf("model:\n%s\n", nl.c_str()); return 10; }
+    }
+  }
   printf("%d generated models over %zu numeric and %zu logical opcodes read back identically\n", count, numeric_ops.size(), logical_ops.size());
   return 0;
 }
